@@ -370,4 +370,24 @@ theorem honest_report_passes_check {F : Type} [DecidableEq F] (enc : ClaimData â
   have hct := hty i c' types[i] h3 htype
   simp [h2, hio, htype, hct, hlook]
 
+/-- the hypotheses of `honest_report_passes_check` are satisfiable, with a requested label the schema lacks
+and a requested set listed in another order than the schema -/
+example : checkDisclosed (F := Nat) (fun c => match c with | .number v => v.toNat | _ => 0)
+    âŸ¨"s", ["c", "a", "z"], ["a", "b", "c"], [.number, .scalar, .number]âŸ©
+    [(0, 7), (2, 9)] [("a", .number 7), ("c", .number 9)] = true := by
+  have := honest_report_passes_check (F := Nat) (fun c => match c with | .number v => v.toNat | _ => 0) "s"
+    ["c", "a", "z"] ["a", "b", "c"] [.number, .scalar, .number] [.number 7, .scalar 5, .number 9]
+    (by decide) (by decide) rfl rfl
+    (by
+      intro i c t hc ht
+      match i with
+      | 0 => simp at hc ht; subst hc; subst ht; rfl
+      | 1 => simp at hc ht; subst hc; subst ht; rfl
+      | 2 => simp at hc ht; subst hc; subst ht; rfl
+      | (k + 3) => simp at hc)
+  have e1 : revealedIdx (fullVector ["c", "a", "z"] ["a", "b", "c"]) = [0, 2] := by decide
+  simp only [e1] at this
+  simpa using this
+
+
 end AC.C02
